@@ -650,6 +650,11 @@ fn transport(setup: &Setup, producer: Producer, mutation: Mutation, consumer: Co
             ref_apply(spec, &target_model, &doc)
         }
     };
+    // a document that repeats a member is neither malformed nor the output of a serializer: the property takes no
+    // position on whether a reader keeps the last occurrence (what the engine does today), the first, or refuses the
+    // document; what it may not do is store anything else
+    let repeats = !flipped && truncated.is_none() && consumer != Consumer::Serde(Entry::Value) && doc.has_duplicate_keys();
+    let expect_first = if repeats { Some(ref_apply(spec, &target_model, &doc.keep_first_keys())) } else { None };
 
     // ---- deliver
     let stream = matches!(consumer, Consumer::Serde(e) if e.is_stream());
@@ -719,6 +724,22 @@ fn transport(setup: &Setup, producer: Producer, mutation: Mutation, consumer: Co
             class,
             format!("reference says: {why}; doc={}", String::from_utf8_lossy(deliver_bytes)),
         )),
+        (Expect::Ok(_), Err(_)) if repeats => {
+            kernel::count("dup.refused");
+            Ok(())
+        }
+        (Expect::Ok(want_model), Ok(())) if repeats && target != wgen::materialise(spec, scheme, &want_model) => {
+            // not the last occurrence: then it must be exactly the first
+            kernel::count("dup.not_last");
+            match expect_first {
+                Some(Expect::Ok(first)) if target == wgen::materialise(spec, scheme, &first) => Ok(()),
+                _ => Err(v(
+                    "roundtrip-not-equal",
+                    class,
+                    format!("repeated member: neither the last nor the first occurrence was kept; got {:?}\n doc={}", wgen::read_back(spec, scheme, &target), String::from_utf8_lossy(deliver_bytes)),
+                )),
+            }
+        }
         (Expect::Ok(_), Err(e)) => {
             let sub = if consumer == Consumer::Serde(Entry::Value) && e.contains("unknown field `data`") {
                 // the $lists entry visitor wants "type" before "data"; a value tree iterates keys sorted
@@ -773,7 +794,7 @@ fn run(ctx: &RunCtx) -> Result<(), Violation> {
     if scenario > 0 {
         return directed(scenario, ctx);
     }
-    let mut spec = wgen::gen_scheme(&[2, 3, 4, 4, 1, 1, 1], chance(2, 3, "with_lists"), false);
+    let mut spec = wgen::gen_scheme(&[4, 6, 8, 8, 2, 2, 2, 1], chance(2, 3, "with_lists"), false);
     if spec.family == "lists_only" && spec.lists.is_empty() {
         spec.lists.push((MType::Int, ListKind::Set));
     }
